@@ -90,6 +90,10 @@ for n, tier, cap in (("ascii_2", Q, 600), ("ascii_3", Q, 900), ("c40_1", Q, 900)
         role="attempt" if n in ("c40_3", "text_3") else "lemma",
         bounds="real %s encoder over the array-backed context HEnc: %s arbitrary characters (%s), 1..=8 codewords already present, symbol list = any 1..3 ascending capacities from the real catalogue (<= 43), planned switch to ASCII at any character or none; stream finished as the dispatch loop does (rest in ASCII, UNLATCH, PAD, 253-state pads) and decoded by the independent ISO/IEC 16022 decoder: output == input, no assertion/overflow/index failure" % (m, l, "EDIFACT-encodable" if m == "edifact" else "X12-native in the full triples" if m == "x12" else "all 256 values"),
         encodes=_enc_fn[m] + ["encodation::ascii::encode", "encodation::ascii::encoding_size"])
+for n in ("249", "250", "499", "500", "1554", "1555"):
+    reg("wl_b256_" + n, "b256", ["C11", "C02", "C01"], cap=1500, mem_gb=12, tier=Q if n in ("249", "250") else T, role="lemma" if n in ("249", "250") else "attempt", qprops=["C11", "C02"] if n == "250" else ["C11"],
+        bounds="base256::write_length alone on a field of exactly %s data codewords already written (first and last symbolic, rest 0), no characters left, 0..=2 (symbolic) codewords of room left in the symbol: Ok, no panic, the standard's one/two-codeword length (or 0 = to the end of the symbol), 255-state randomisation at the final positions" % n,
+        encodes=["encodation::base256::write_length", "encodation::base256::randomize_255_state"])
 for n in ("249", "250", "251", "1555"):
     reg("conf_b256_" + n, "enc", ["C02", "C01", "C11"], cap=1800, mem_gb=20 if n == "1555" else 16, tier=T if n == "1555" else Q, role="attempt" if n == "1555" else "lemma",
         qprops=["C02", "C01"] if n == "250" else ["C02"],
